@@ -303,6 +303,20 @@ def r4_last_written_survive_close(repo=None):
     dels = [n for n in g.nodes if isinstance(n.ast, ast.Delete) and "_channelObj" in n.label]
     if not dels:
         raise AnalysisError("close(): `del self._channelObj` not found")
+    # who-may-release: only close() - which takes the copies first - lets go of the channel object
+    for q2, f2 in m.functions.items():
+        if not q2.startswith("DigitalRFWriter.") or "<locals>" in q2 or q2 == q:
+            continue
+        for x in ast.walk(f2):
+            rel = (isinstance(x, ast.Delete) and any(pyfront.dotted(t) == "self._channelObj" for t in x.targets)) or (
+                isinstance(x, ast.Call) and pyfront.call_name(x) == "delattr" and len(x.args) == 2 and pyfront.dotted(x.args[0]) == "self"
+                and pyfront.const(x.args[1]) == "_channelObj") or (
+                isinstance(x, ast.Assign) and any(pyfront.dotted(t) == "self._channelObj" for t in x.targets) and pyfront.const(x.value) is None
+                and isinstance(x.value, ast.Constant))
+            if rel:
+                r.violation(m.rel, q2, norm(ast.unparse(x))[:60], "the channel object is released outside close(), which is where the last file, "
+                            "directory and time written are copied for later queries: after this path the getters have neither the "
+                            "object nor the copies (they return nothing / raise)", line=x.lineno)
     for getter in ("self.get_last_file_written", "self.get_last_dir_written", "self.get_last_utc_timestamp"):
         gq = "DigitalRFWriter." + getter[5:]
         # the flat view: a helper shared by the three getters (`self._ask(<extension function>, "<attribute>")`) is read in place
@@ -594,7 +608,7 @@ def rules(repo=None):
             f.rule = "C19.R1"
         return x
     return [r1, lambda: r2_affine_invariant(repo), lambda: r3_extension_returns_cursor(repo),
-            lambda: r4_last_written_survive_close(repo), lambda: r5_marker_search_on_base_name_only(repo), lambda: r6_reported_names_are_the_names_used(repo), lambda: r7_getters_hand_the_library_strings_on(repo)]
+            lambda: r4_last_written_survive_close(repo), lambda: r5_marker_search_on_base_name_only(repo), lambda: r6_reported_names_are_the_names_used(repo), lambda: r7_getters_hand_the_library_strings_on(repo), lambda: c05.r7_cursor_has_one_owner(repo, rid="C19.R8")]
 
 
 EXPLANATION = (
@@ -611,7 +625,9 @@ EXPLANATION = (
     "path finds it in the user's directory for some directory names, and the reported last file is then a name that never"
     ' exists. R6: string provenance of the text returned by digital_rf_get_last_dir_written / '
     'digital_rf_get_last_file_written: <directory>/<sub_directory>(/) and that plus the base name without tmp. R7: the '
-    "Python getters return the extension's text or the copy close() took, never a function of it. Does NOT decide the "
+    "Python getters return the extension's text or the copy close() took, never a function of it. R8 (= C05.R7): the C cursor "
+    'from which the next-sample position and the gap counter are derived is stored only by its owners (constructor, per-file '
+    'write step) - a public write function that sets it moves the position past samples nobody wrote. Does NOT decide the '
     'value of the C cursor.')
 TECHNIQUE = ('Python ast + clang JSON AST; symbolic linear forms of the counter updates; ordering relative to the extension call; def-use of cached values')
 ASSUMPTIONS = ["the extension's return value is the library's cursor (R3); its value is not decided"]
